@@ -61,6 +61,10 @@ func Sleep(ctx context.Context, args ...object.Object) object.Object {
 	defer timer.Stop()
 	select {
 	case <-ctx.Done():
+		// The sleep was cut short: report it, so that an evaluation whose
+		// last statement is a sleep ends with the error of its context
+		// instead of looking as if it had completed
+		return object.NewError(ctx.Err())
 	case <-timer.C:
 	}
 	return object.Nil
